@@ -188,7 +188,7 @@ def do_walk(fs, toks: list, via_iter: bool = False) -> dict:
         for f in (iter(fs) if via_iter else fs.walk_folder(arg)):
             c, ce = exc_name(lambda: read_bin(f.open_bin()))
             lk, le = exc_name(lambda: read_bin(fs[f.path].open_bin()))
-            items.append({'n': f.path.split('/'), 'c': c or '', 'ce': ce, 'l': lk or '', 'le': le})
+            items.append({'n': f.path.replace(BS, '/').split('/'), 'c': c or '', 'ce': ce, 'l': lk or '', 'le': le})
         e = ''
     except Exception as exc:
         e = type(exc).__name__
@@ -291,7 +291,7 @@ class Spy(FileSystem):
     def walk_folder(self, folder=''):
         items = list(self.inner.walk_folder(folder))
         self.log.append({'op': 'walk', 'm': self.idx, 'arg': folder,
-                         'items': [{'n': f.path.split('/'), 'c': read_bin(f.open_bin())} for f in items]})
+                         'items': [{'n': f.path.replace(BS, '/').split('/'), 'c': read_bin(f.open_bin())} for f in items]})
         return iter(items)
 
     def open_bin(self, name):
@@ -403,10 +403,10 @@ def chain_record(fac: Factory, pre: list, act: dict, lookups: list, folders: lis
             for f in listed:
                 c, ce = exc_name(lambda: read_bin(f.open_bin()))
                 lk, le = exc_name(lambda: read_bin(chain[f.path].open_bin()))
-                items.append({'n': f.path.split('/'), 'c': c or '', 'ce': ce, 'l': lk or '', 'le': le})
+                items.append({'n': f.path.replace(BS, '/').split('/'), 'c': c or '', 'ce': ce, 'l': lk or '', 'le': le})
             # the same walk without de-duplication
             log.clear()
-            rep = [{'n': f.path.split('/'), 'c': read_bin(f.open_bin())} for f in chain.walk_folder_repeat(tok_str(toks))]
+            rep = [{'n': f.path.replace(BS, '/').split('/'), 'c': read_bin(f.open_bin())} for f in chain.walk_folder_repeat(tok_str(toks))]
         except Exception as exc:
             e = type(exc).__name__
             cl = calls('walk')
